@@ -8,7 +8,8 @@ CHECKS = {
                 "255.255.255.255, 1-4 ranges with gaps>=2, routableSubnet/nodeSubnets with duplicates and host bits), renders "
                 "them to configuration JSON text and (1 case in 3) mutates one pool into an invalid one (outside subnet, "
                 "unsorted, overlapping, adjacent, reversed, bad literal, a well-formed range followed by one more '~' segment, missing field, wrong JSON type); plus one range string "
-                "a~b per case. A quarter of the valid cases also goes through galaxy-ipam's configmap path on a simulated cluster: the text "
+                "a~b per case. Every accepted pool is also edited: one address (first, middle, last of every range) is removed and inserted again - the "
+                "ranges must come back exactly and the pool in between must still round-trip. A quarter of the valid cases also goes through galaxy-ipam's configmap path on a simulated cluster: the text "
                 "with a null entry in front (decodes, but ConfigurePool refuses it) must answer an error on EVERY poll and leave the configured "
                 "IPs as they were, then the accepted text is applied and enumerates the model's IPs. Non-trivial = >=2 ranges, or a boundary address (x.x.x.0/255, 0.0.0.0, 255.255.255.255), or a "
                 "mutated-invalid configuration; distinct by SHA-1 of the case.",
@@ -71,7 +72,7 @@ CHECKS.update({
                 "the IP, pod-IP sync. Oracle after every op and scheduler step: every live bound pod's still-configured IP is allocated to "
                 "its key, and the provider was not asked to unassign it. Non-trivial = a release path ran while a same-named replacement "
                 "was live and bound. One injected API error in a quarter of the histories; a workload's pod template may change its "
-                "request_ip_range between incarnations.", quick=4000, floors={"same_name_recreated": 0.3}, enum=True),
+                "request_ip_range between incarnations.", quick=7000, floors={"same_name_recreated": 0.3}, enum=True),
     "C10": hist("TestC10", GEN + "Recording cloud provider with cleanly failing calls. Oracle: per-IP state machine none|on(node) replayed "
                 "over the call log after every op/step (no assign to a second node while assigned, live bound pod's IP on its node, free "
                 "IP unassigned). Non-trivial = a pod identity was bound on two different nodes or a provider call failed.",
@@ -169,7 +170,8 @@ CHECKS["C13"] = {"pkg": "galaxysim", "test": "TestC13", "level": "exploration",
     "quick": {"checks": 2000, "shards": 4, "timeout": 900}, "thorough": {"checks": 32000, "shards": 16, "timeout": 2400},
     "rule": "rapid draws a pool (mask /8-/30, gateway anywhere in the subnet, VLAN 0-4094), a statefulset or deployment pod requesting k=0-4 "
             "ranges, and 1-2 networks; a quarter of the pods were created from the manifest of a pod bound earlier, i.e. their args annotation "
-            "already carries common.ipinfos with an address IPAM never gave to them; for a quarter of the single-pool statefulset cases the "
+            "already carries common.ipinfos with an address IPAM never gave to them; the daemon talks to an options-aware API-server double whose "
+            "watch cache still holds the pod as it was BEFORE the binding (a GET with resourceVersion=0 is answered from it, a consistent GET from the truth); for a quarter of the single-pool statefulset cases the "
             "administrator changes the pool's gateway and VLAN after the first bind, galaxy-ipam reloads, the pod (policy never) is re-created and bound "
             "again, and the plugin must get the new settings. Real Filter+Bind on the simulated cluster -> the applied binding annotation is put on the pod served "
             "to the real galaxy daemon -> ADD -> the fake plugin's recorded CNI_ARGS is decoded with the plugins' own cni/ipam.Allocate -> "
@@ -209,7 +211,8 @@ CHECKS["C15"] = {"pkg": "netsim", "test": "TestC15", "level": "exploration",
     "rule": "rapid draws a pair of cluster states A,B (2-4 labelled namespaces, 3-10 labelled pods with IPs, some on this node, 0-5 policies "
             "with pod/namespace/combined selectors, ipBlocks with excepts, ports, all policyTypes combinations; B derived from A by pod "
             "delete/relabel/re-address/loss of the address (re-created, not networked yet)/re-creation under the same name on the other side (local <-> remote)/add and policy delete/rewrite/add), optionally the A->B difference as a generated permutation of "
-            "informer events through the real handlers, and prior kernel state (foreign chains/sets, stale GLX sets, stale GLX policy "
+            "informer events through the real handlers (with the listers following event by event, or - a third of these cases - already at B when the first "
+            "handler runs: then the state right after every policy event handler, each of which runs a full synchronisation, must be the one derived from B), and prior kernel state (foreign chains/sets, stale GLX sets, stale GLX policy "
             "chains, a stale pod chain still referencing a stale policy chain, hook chains that exist without the jumps from the built-in chains). Every jump "
             "from INPUT/OUTPUT/FORWARD into galaxy's hook chains that a sync from empty tables installs must be present after the full sync. Oracle on the strict fakes: no rejected batch, non-GLX "
             "chains/rules/sets unchanged after every call, full sync of B == full sync of B on empty tables (canonical form), second full "
@@ -232,7 +235,7 @@ CHECKS["C16"] = {"pkg": "netsim", "test": "TestC16", "level": "exploration",
             "sees the pod events (no full sync): every flow is judged again - a flow allowed now must be accepted; an accepted flow must be "
             "allowed when ipset membership is taken as the union over the states since the last full sync (the event handlers add, only a "
             "full sync removes) and everything else from the current state. evaluations = clusters; coverage.extra.flows = flows judged. "
-            "Non-trivial = >=1 isolated local pod and both ACCEPT and DROP verdicts occur.",
+            "Non-trivial = >=1 isolated local pod and both ACCEPT and DROP verdicts occur. A third phase places the update event of a NEW local pod inside a periodic full synchronisation, before each of the pass's iptables-save snapshots in turn (hook of the strict fake); after the pass the verdicts must hold for that pod too.",
     "assumptions": E3_ASSUME + ["new-connection packets on the FORWARD hook (pod-to-pod and pod-to-external traffic through this node); conntrack RELATED,ESTABLISHED never matches a first packet",
                                 "a missing from/to or ports list and a present but empty one mean the same; the generated objects carry either form (objects built in Go keep the difference, a JSON round trip does not)",
                                 "numeric ports only (named ports are documented as unsupported)"],
